@@ -482,6 +482,10 @@ func (f *frame) execAppend(x *ssa.Call, args []Val, in string, st *State) {
 		rFresh))
 	f.name(x, res)
 	r := f.vals[x].T
+	// instantiation bridge (a consequence of the definition of at_): when the result
+	// shares the backing array, its element addresses are those of s, so facts
+	// known about s[i] (triggered on at_(s,i)) apply to r[i]
+	vc.assume(in, fmt.Sprintf("(forall ((i! Int)) (! (=> (and (= (sl.base %s) (sl.base %s)) (= (sl.off %s) (sl.off %s))) (= (at_ %s i!) (at_ %s i!))) :pattern ((at_ %s i!)) :pattern ((at_ %s i!))))", r, s.T, r, s.T, r, s.T, r, s.T))
 	// fresh branch: old contents copied (assumed on the pre-store heap; fresh cells are otherwise unconstrained)
 	lvs := vc.leaves(et)
 	for _, lf := range lvs {
